@@ -28,9 +28,45 @@ func AddUint64(addr *uint64, delta uint64) uint64 {
 func LoadUint64(addr *uint64) uint64     { vsync.Yield(); return goatomic.LoadUint64(addr) }
 func StoreUint64(addr *uint64, v uint64) { vsync.Yield(); goatomic.StoreUint64(addr, v) }
 
-type (
-	Value = goatomic.Value
-	Int64 = goatomic.Int64
-	Int32 = goatomic.Int32
-	Bool  = goatomic.Bool
-)
+// The typed atomics: every operation is a scheduling point, like the function forms above.
+type Value struct{ v goatomic.Value }
+
+func (x *Value) Load() any        { vsync.Yield(); return x.v.Load() }
+func (x *Value) Store(val any)    { vsync.Yield(); x.v.Store(val) }
+func (x *Value) Swap(new any) any { vsync.Yield(); return x.v.Swap(new) }
+func (x *Value) CompareAndSwap(old, new any) bool {
+	vsync.Yield()
+	return x.v.CompareAndSwap(old, new)
+}
+
+type Int64 struct{ v goatomic.Int64 }
+
+func (x *Int64) Load() int64        { vsync.Yield(); return x.v.Load() }
+func (x *Int64) Store(val int64)    { vsync.Yield(); x.v.Store(val) }
+func (x *Int64) Add(d int64) int64  { vsync.Yield(); return x.v.Add(d) }
+func (x *Int64) Swap(n int64) int64 { vsync.Yield(); return x.v.Swap(n) }
+func (x *Int64) CompareAndSwap(o, n int64) bool {
+	vsync.Yield()
+	return x.v.CompareAndSwap(o, n)
+}
+
+type Int32 struct{ v goatomic.Int32 }
+
+func (x *Int32) Load() int32        { vsync.Yield(); return x.v.Load() }
+func (x *Int32) Store(val int32)    { vsync.Yield(); x.v.Store(val) }
+func (x *Int32) Add(d int32) int32  { vsync.Yield(); return x.v.Add(d) }
+func (x *Int32) Swap(n int32) int32 { vsync.Yield(); return x.v.Swap(n) }
+func (x *Int32) CompareAndSwap(o, n int32) bool {
+	vsync.Yield()
+	return x.v.CompareAndSwap(o, n)
+}
+
+type Bool struct{ v goatomic.Bool }
+
+func (x *Bool) Load() bool       { vsync.Yield(); return x.v.Load() }
+func (x *Bool) Store(val bool)   { vsync.Yield(); x.v.Store(val) }
+func (x *Bool) Swap(n bool) bool { vsync.Yield(); return x.v.Swap(n) }
+func (x *Bool) CompareAndSwap(o, n bool) bool {
+	vsync.Yield()
+	return x.v.CompareAndSwap(o, n)
+}
